@@ -413,14 +413,16 @@ Proof. exact empty_topic_witness. Qed.
       [KJump from to] a sweep started with a STALE cursor ([stale], the log rolled past it): it
                   continues at the log's base [to], the entries [from, to) were evicted
                   unforwarded — the "within retention" proviso ([c01_run_jump_event]);
-      [KRes]      a Connect RESUMED a saved session on a new link: one marker per restored
-                  non-shared request, under the NEW key ([c01_run_res_event]).  Nothing is claimed
-                  about where such a request continues (C08: it re-delivers from the first
-                  unacknowledged forward); nothing is claimed across connection epochs.
+      [KRes cl c0] a Connect of client [cl] RESUMED a saved session on a new link: one marker per
+                  restored non-shared request, under the NEW key, [c0] = the offset of the cursor
+                  it was restored with ([c01_run_res_event]); the first sweep starts at [c0].
+                  What [c0] is, across connection epochs, is C08's business (Props/C08.v);
+      [KEnd cl r w] a connection of [cl] with clean_session = false was removed; end markers are
+                  not part of [ktrace] (see Props/C08.v).
     [ktrace K tr] = the events of key K = (k, f, i) in order; [nxt]: where the request continues
     after an event (forward off -> off + 1, jump -> to, subscribe -> e); [kchain]: every event
-    starts where the previous one continues ([ok_next]; anything may follow a [KRes], a [KRes]
-    follows nothing but a [KRes]); [covered x l]: offset [x] is forwarded in [l], or inside a
+    starts where the previous one continues ([ok_next]; a [KRes] follows nothing; a jump right after
+    a [KRes] may go to either side); [covered x l]: offset [x] is forwarded in [l], or inside a
     jump of [l], or below a subscribe marker of [l].
     Hypotheses of every theorem: valid configuration, max_outgoing_packet_count < 2^62, well-typed
     ops (SUBSCRIBE QoS <= 2), fewer than 2^62 entries per filter log in the LAST state; for
@@ -459,7 +461,8 @@ Proof. exact c01_run_chain_thm. Qed.
 Theorem c01_run_key_head : forall (cfg : config) (st0 : rstate) (ops : list (list oracle * rop)) (st : rstate) (tr : list dev),
   cfg_ok cfg -> cf_max_outgoing cfg < B62 -> init cfg = Ok st0 -> ops_wf ops ->
   run_d st0 ops = Ok (st, tr) -> Bounded st ->
-  forall (K : dkey) (a : kev) (l : list kev), ktrace K tr = a :: l -> a = KRes \/ exists e : N, a = KSub e.
+  forall (K : dkey) (a : kev) (l : list kev), ktrace K tr = a :: l ->
+    (exists (cl : str) (c0 : N), a = KRes cl c0) \/ exists e : N, a = KSub e.
 Proof. exact c01_run_key_head_thm. Qed.
 
 (** (a) no duplicate, acceptance order: the offsets forwarded for a key increase strictly *)
@@ -491,7 +494,8 @@ Theorem c01_run_starts_after_subscribe : forall (cfg : config) (st0 : rstate) (o
     ktrace K tr = l1 ++ KSub e :: l2 ->
     (forall (off : N) (p : publish), In (KFwd off p) l2 -> e <= off) /\
     (forall (b : kev) (l3 : list kev), l2 = b :: l3 ->
-       match b with KFwd off _ => off = e | KJump from to => from = e /\ e <= to | KSub e' => e <= e' | KRes => False end).
+       match b with KFwd off _ => off = e | KJump from to => from = e /\ e <= to | KSub e' => e <= e'
+                  | KRes _ _ => False | KEnd _ _ _ => False end).
 Proof. exact c01_run_starts_after_subscribe_thm. Qed.
 
 (** (d) complete at quiescence: every live connection's every subscription has its one request
@@ -511,7 +515,8 @@ Theorem c01_run_complete : forall (cfg : config) (st0 : rstate) (ops : list (lis
     nget (r_datalog st) i = Some d /\ In (id, rq) (d_waiters d) /\ dr_filter rq = f /\ dr_idx rq = i /\
     (dr_group rq = None ->
      snd (dr_cursor rq) = end_of (d_log d) /\
-     (exists (a : kev) (l : list kev), ktrace (o_link o, f, i) tr = a :: l /\ (a = KRes \/ exists e : N, a = KSub e)) /\
+     (exists (a : kev) (l : list kev), ktrace (o_link o, f, i) tr = a :: l /\
+        ((exists (cl : str) (c0 : N), a = KRes cl c0) \/ exists e : N, a = KSub e)) /\
      forall (l1 : list kev) (e : N) (l2 : list kev), ktrace (o_link o, f, i) tr = l1 ++ KSub e :: l2 ->
        forall x : N, e <= x < end_of (d_log d) -> covered x l2).
 Proof. exact c01_run_complete_thm. Qed.
@@ -530,9 +535,10 @@ Theorem c01_run_complete_plain : forall (cfg : config) (st0 : rstate) (ops : lis
     nget (r_datalog st) i = Some d /\ d_filter d = f /\
     In (id, rq) (d_waiters d) /\ dr_filter rq = f /\ dr_idx rq = i /\ dr_group rq = None /\
     snd (dr_cursor rq) = end_of (d_log d) /\
-    (exists (a : kev) (l : list kev), ktrace (o_link o, f, i) tr = a :: l /\ (a = KRes \/ exists e : N, a = KSub e)) /\
-    forall (l1 : list kev) (e : N) (l2 : list kev), ktrace (o_link o, f, i) tr = l1 ++ KSub e :: l2 ->
-      forall x : N, e <= x < end_of (d_log d) -> covered x l2.
+    (exists (a : kev) (l : list kev), ktrace (o_link o, f, i) tr = a :: l /\
+       ((exists (cl : str) (c0 : N), a = KRes cl c0) \/ exists e : N, a = KSub e)) /\
+    forall (l1 : list kev) (a : kev) (l2 : list kev), ktrace (o_link o, f, i) tr = l1 ++ a :: l2 ->
+      forall x : N, nxt a <= x < end_of (d_log d) -> covered x l2.
 Proof. exact run_complete_plain. Qed.
 
 Theorem c01_run_key_shape : forall (cfg : config) (st0 : rstate) (ops : list (list oracle * rop)) (st : rstate) (tr : list dev),
@@ -603,11 +609,11 @@ Proof. exact pf_ghost_sub. Qed.
 
 Theorem c01_run_res_event : forall (st' : rstate) (client : str) (link id' : N) (K : dkey) (a : kev),
   In (id', K, a) (conn_ghost st' client link) ->
-  a = KRes /\ al_get str_eqb client (r_cmap st') = Some id' /\
+  al_get str_eqb client (r_cmap st') = Some id' /\
   exists (o : outgoing) (t : tracker) (rq : drequest),
     slab_get (r_obufs st') id' = Some o /\ o_link o = link /\
     slab_get (r_trackers st') id' = Some t /\ In rq (tr_reqs t) /\ dr_group rq = None /\
-    K = (link, dr_filter rq, dr_idx rq).
+    K = (link, dr_filter rq, dr_idx rq) /\ a = KRes client (snd (dr_cursor rq)).
 Proof. exact conn_ghost_res. Qed.
 
 (** the hypotheses are met by concrete runs (Router/TraceRunExamples.v).  Subscribers a (QoS 1,
@@ -615,7 +621,7 @@ Proof. exact conn_ghost_res. Qed.
     window —; 12 large publishes roll the two-segment log past both cursors (base 109); then
     both are swept from stale cursors (jumps 100->109 and 103->109), all is acknowledged and
     drained: quiescent.  [kshort]: (0, off, 0) forward, (1, from, to) jump, (2, e, 0) subscribe,
-    (3, 0, 0) resume marker. *)
+    (3, c0, 0) resume marker. *)
 Theorem c01_run_example_paused :
   let st := tx_st tx_ops_mid in let tr := tx_tr tx_ops_mid in
   tx_run tx_ops_mid = Ok (st, tr) /\
